@@ -11,6 +11,7 @@ import (
 	"strings"
 
 	"github.com/np-guard/netpol-analyzer/pkg/netpol/connlist"
+	"github.com/np-guard/netpol-analyzer/pkg/netpol/diff"
 	"github.com/np-guard/netpol-analyzer/pkg/netpol/internal/common"
 )
 
@@ -281,6 +282,33 @@ func execWPair(c *Sx, env *execEnv) (*Sx, []Violation) {
 		if ra.rawSx.String() != rb.rawSx.String() {
 			rep("C08", "shuffle-changes-result", "the relation differs after permuting documents / files / rules")
 		}
+		// the printed output, every format, with and without exposure analysis, is the same for both layouts
+		admin := false
+		for _, o := range wa.Objs {
+			admin = admin || o.Kind == "anp" || o.Kind == "banp"
+		}
+		for _, exposure := range []bool{false, true} {
+			if exposure && admin {
+				continue // exposure analysis does not take admin policies
+			}
+			for _, f := range listFormats {
+				la := libList(dirA, f, "", exposure, false)
+				lb := libList(dirB, f, "", exposure, false)
+				env.count("shuffle-output:" + f)
+				if (la.err == nil) != (lb.err == nil) {
+					rep("C08", "shuffle-changes-output", fmt.Sprintf("format %s exposure=%v: one layout fails (%v), the other does not (%v)", f, exposure, la.err, lb.err))
+				} else if la.err == nil && la.out != lb.out {
+					rep("C08", "shuffle-changes-output", fmt.Sprintf("format %s exposure=%v: the output differs after permuting documents / files / rules; first difference: %s",
+						f, exposure, firstDiff(strings.Split(la.out, "\n"), strings.Split(lb.out, "\n"))))
+				}
+			}
+		}
+		// and the two layouts have no connectivity difference
+		da := diff.NewDiffAnalyzer(diff.WithLogger(nullLogger{}), diff.WithOutputFormat("txt"))
+		if cd, err := da.ConnDiffFromDirPaths(dirA, dirB); err == nil && !cd.IsEmpty() {
+			s, _ := da.ConnectivityDiffToString(cd)
+			rep("C08", "shuffle-diff-not-empty", "diff between the two layouts of the same documents is not empty: "+firstLine(s))
+		}
 	case "respell":
 		if d := comparePointwise(ra, rb, cmpEqual, id, nil); d != "" {
 			rep("C14", "respelling-changes-connectivity", d)
@@ -403,4 +431,11 @@ func genShuffle(r *Rng, id int, tier string) *Sx {
 func init() {
 	families["reexpress"] = family{gen: genReexpress, exec: execWPair}
 	families["shuffle"] = family{gen: genShuffle, exec: execWPair}
+}
+
+func firstLine(s string) string {
+	if i := strings.Index(s, "\n"); i >= 0 {
+		return s[:i]
+	}
+	return s
 }
